@@ -1,7 +1,8 @@
 """C16 -- quantity arithmetic is dimensionally sound and type safe.
 
 Tie to /repo on every run:
- (T) translator/dump_units.py regenerates coq/Units/Gen_Tables.v from the imported module; the
+ (T) translator/dump_units.py regenerates Gen_Tables.v from the imported module (into a directory keyed
+     by the content of the tree's units.py, see c16_units.Tree; runs on different trees share nothing); the
      table theorems (Units/GenFacts16.v: mul_table_sound, div_table_sound, tables_closed, ...)
      are recompiled against it, Props/C16.v is re-checked.
  (C) dispatch on ALL ordered pairs of the discovered quantity classes x {*, /}, number-by-quantity,
@@ -368,6 +369,8 @@ def main(tier: str) -> int:
     phase = {"translate": round(_t.time() - run.t0, 1)}
     _t0 = _t.time()
     proofs_ok = UU.check_proofs(run, tree, extra_tb=[
+        "the names Print Assumptions lists (float, add, sub, mul, div, opp, abs, eqb, ltb, leb) are the kernel's primitive "
+        "binary64 type and operations, which Coq reports there; the development declares no axiom and uses none of FloatAxioms",
         "reflective translator translator/dump_units.py (tables regenerated from the imported module on every run; "
         "read back and compared with the live classes)",
         "binary64 arithmetic is executed (PrimFloat in vm_compute), never reasoned about: theorems about SI values are over an "
